@@ -87,6 +87,33 @@ Proof.
   - exact Hf.
 Qed.
 
+(* the same during exploration as long as no candidates are pending (first bound; or every candidate list empty):
+   nothing is taken from the candidate store, so the batch is exactly the n_batch newly evaluated points *)
+Lemma do_rounds_used known b later prov : forall rounds a a',
+  do_rounds contains in_cube n_batch known b later prov false rounds a = Some a' -> a_used a' = a_used a.
+Proof.
+  induction rounds as [|r rs IH]; simpl; intros a a' E.
+  - destruct (Nat.eqb (length (a_kept a)) n_batch); inversion E; subst; reflexivity.
+  - repeat match type of E with (if ?c then None else _) = _ => destruct c; [discriminate|] end.
+    destruct (r_used r); [|discriminate]. destruct (r_replaced r); [|discriminate].
+    match type of E with (if ?c then None else _) = _ => destruct c; [discriminate|] end.
+    apply IH in E. simpl in E. rewrite app_nil_r in E. exact E.
+Qed.
+Theorem batch_stored_nocand s rounds vals s' :
+  t_from s = [] -> step s (EvAddSamples None rounds vals) = Some s' ->
+  length (all_pts s') = length (all_pts s) + n_batch /\ n_like s' = n_like s + n_batch.
+Proof.
+  intros Hf. simpl. unfold add_samples. brk. brk. brk. rewrite Hf. simpl. brk. brk.
+  match goal with H : do_rounds _ _ _ _ _ _ _ _ _ _ = Some _ |- _ => rename H into Ed end.
+  match goal with H : nth_error (shells s) _ = Some _ |- _ => rename H into En end.
+  pose proof Ed as Hk. apply do_rounds_kept in Hk.
+  pose proof Ed as Hu. apply do_rounds_used in Hu. simpl in Hu. rewrite Hu. simpl.
+  intros E; inversion E; subst; clear E. unfold all_pts; simpl. split; [|lia].
+  match goal with |- context [upd_nth ?i ?f _] =>
+    pose proof (cat_upd i (a_kept a) f (fun x => eq_refl) (shells s) _ En) as Hp end.
+  apply Permutation_length in Hp. unfold cat in Hp. rewrite Hp, app_length. lia.
+Qed.
+
 (* lifted to every continuation of an explored state: calls and stored samples advance in lock step *)
 Lemma step_lockstep s e s' : explored s = true -> step s e = Some s' ->
   explored s' = true /\ n_like s' + length (all_pts s) = n_like s + length (all_pts s') /\ t_pts s' = t_pts s.
